@@ -16,6 +16,7 @@ import DfolsVerif.Proofs.ModelObj
 import DfolsVerif.Proofs.RunningMean
 import DfolsVerif.Gen.ModelDecisions
 import DfolsVerif.Proofs.HCalls
+import DfolsVerif.Gen.RowWrites
 
 namespace Dfols
 namespace C17
@@ -168,6 +169,31 @@ theorem C17_src_h_at_stored_point :
       ((c.point ≠ "" ∧ (c.scaling = "self.scaling_changes" ∨ c.scaling = "scaling_changes")) ∨
        (c.func = "util.py:eval_least_squares_with_regularisation" ∧ c.arg = "x"))) :=
   ⟨HCalls.model_h_at_stored_point, HCalls.h_sees_user_coordinates⟩
+
+/-! ### layer G: the five per-point arrays travel together (table of every write to them, regenerated from model.py) -/
+
+/-- arrays written by a method (in source order, duplicates removed by the caller's comparison) -/
+def writtenBy (m : String) : List String := (Gen.rowWrites.filter (fun w => w.1 == m)).map (·.2.1)
+
+/-- **points, residuals, objectives, sample counts and evaluation numbers travel together** (decided over the table of ALL writes
+    to `points`, `fval_v`, `objval`, `nsamples`, `eval_num` in `Model`): `change_point` rewrites row `k` in all five arrays (sample
+    count 1, the evaluation number it was given), `swap_points` swaps the same two rows `[k1, k2] ← [k2, k1]` in all five (the pinned
+    code left `nsamples` behind: `C17_swap_old`), `add_new_point` appends one entry to all five, `add_new_sample` updates row `k` of
+    the residual, the objective and the count only, `shift_base` moves coordinates only, and no other method writes them. -/
+theorem C17_src_rows_travel_together :
+    (Gen.rowWrites.map (·.1)).eraseDups = ["__init__", "change_point", "swap_points", "add_new_sample", "add_new_point", "shift_base"] ∧
+    (writtenBy "change_point").eraseDups = ["points", "fval_v", "objval", "nsamples", "eval_num"] ∧
+    (Gen.rowWrites.filter (fun w => w.1 == "change_point")).all (fun w => w.2.2.1 == "k" || w.2.2.1 == "(k, :)") = true ∧
+    ("change_point", "nsamples", "k", "1") ∈ Gen.rowWrites ∧ ("change_point", "eval_num", "k", "eval_num") ∈ Gen.rowWrites ∧
+    (Gen.rowWrites.filter (fun w => w.1 == "swap_points")).map (fun w => (w.2.1, w.2.2.2)) =
+      [("points", "self.points[[k2, k1], :]"), ("fval_v", "self.fval_v[[k2, k1], :]"), ("objval", "self.objval[[k2, k1]]"),
+       ("eval_num", "self.eval_num[[k2, k1]]"), ("nsamples", "self.nsamples[[k2, k1]]")] ∧
+    (Gen.rowWrites.filter (fun w => w.1 == "swap_points")).all (fun w => w.2.2.1 == "[k1, k2]" || w.2.2.1 == "([k1, k2], :)") = true ∧
+    (writtenBy "add_new_point") = ["points", "fval_v", "objval", "nsamples", "eval_num"] ∧
+    (Gen.rowWrites.filter (fun w => w.1 == "add_new_point")).all (fun w => w.2.2.1 == "" && w.2.2.2.startsWith "np.append(self.") = true ∧
+    (writtenBy "add_new_sample").eraseDups = ["fval_v", "objval", "nsamples"] ∧
+    writtenBy "shift_base" = ["points"] := by
+  decide +kernel
 
 end C17
 end Dfols
